@@ -166,7 +166,7 @@ class RefServer:
     "first time".
     """
 
-    WALL_LIMIT = 300
+    WALL_LIMIT = 1200
     _BOOT = ("import sys, socket\n"
              "sys.dont_write_bytecode = True\n"
              "sys.path.insert(0, sys.argv[2])\n"
